@@ -96,6 +96,11 @@ pub struct HoldsFake { pub n: u32, pub f: Fake }
 pub struct DeepHoldsFake { pub n: u32, pub f: Fake, pub v: Vec<Fake> }
 #[derive(Epserde, Clone, Debug)]
 pub struct Gen<A> { pub a: A }
+#[derive(Epserde, Clone, Copy, Debug)]
+#[repr(C)]
+#[zero_copy]
+pub struct HoldsRange { pub n: u32, pub r: core::ops::RangeTo<Fake>, pub ri: core::ops::RangeToInclusive<Fake> }
+pub static FAKES: [Fake; 2] = [Fake { s: &FAKE_DATA }, Fake { s: &FAKE_DATA }];
 """
 F = "Fake { s: &FAKE_DATA }"
 HAND_CONTEXTS = [
@@ -116,6 +121,17 @@ HAND_CONTEXTS = [
     ("tuple2", "(Fake, Fake)", f"({F}, {F})"),
     ("vec-of-tuple", "Vec<(Fake, Fake)>", f"vec![({F}, {F})]"),
     ("rangeto", "Vec<core::ops::RangeTo<Fake>>", f"vec![..{F}]"),
+    ("rangetoinclusive", "Vec<core::ops::RangeToInclusive<Fake>>", f"vec![..={F}]"),
+    ("rangetoinclusive-box", "Box<[core::ops::RangeToInclusive<Fake>]>", f"vec![..={F}].into_boxed_slice()"),
+    ("rangetoinclusive-array", "[core::ops::RangeToInclusive<Fake>; 2]", f"[..={F}, ..={F}]"),
+    ("rangeto-array", "[core::ops::RangeTo<Fake>; 1]", f"[..{F}]"),
+    ("rangeto-in-zero-struct", "HoldsRange", f"HoldsRange {{ n: 1, r: ..{F}, ri: ..={F} }}"),
+    ("tuple-of-rangetoinclusive", "Vec<(core::ops::RangeToInclusive<Fake>,)>", f"vec![(..={F},)]"),
+    ("tuple3", "Vec<(Fake, Fake, Fake)>", f"vec![({F}, {F}, {F})]"),
+    ("tuple12", "Vec<(Fake, Fake, Fake, Fake, Fake, Fake, Fake, Fake, Fake, Fake, Fake, Fake)>", "vec![(" + ", ".join([F] * 12) + ")]"),
+    ("seriter", "SerIter<'static, Fake, std::slice::Iter<'static, Fake>>", f"SerIter::from(FAKES.iter())"),
+    ("seriter-in-generic", "Gen<SerIter<'static, Fake, std::slice::Iter<'static, Fake>>>", f"Gen {{ a: SerIter::from(FAKES.iter()) }}"),
+    ("slice-in-generic", "Gen<&[Fake]>", f"Gen {{ a: &FAKES[..] }}"),
 ]
 
 MAIN = """
@@ -135,11 +151,12 @@ fn main() {
 
 
 MAIN_HAND = """
+fn sink_len_hint() -> usize { 0 }
 fn main() {
     let v = %(ctor)s;
     let mut sink: Vec<u8> = Vec::new();
     std::panic::set_hook(Box::new(|_| {}));
-    let r = std::panic::catch_unwind(std::panic::AssertUnwindSafe(|| v.serialize(&mut sink).map_err(|e| format!("{:?}", e))));
+    let r = std::panic::catch_unwind(std::panic::AssertUnwindSafe(|| v.%(entry)s(&mut sink).map(|_| sink_len_hint()).map_err(|e| format!("{:?}", e))));
     let needle = (FAKE_DATA.as_ptr() as usize).to_ne_bytes();
     let leaked = sink.windows(8).any(|w| w == needle);
     let header = 37 + core::any::type_name::<%(ty)s>().len();
@@ -238,7 +255,9 @@ def family(tier):
     # zero-copy struct if the compile-time layer were absent (declared Zero, IS_ZERO_COPY = false),
     # used alone and inside every zero-copy container
     for label, ty, ctor in HAND_CONTEXTS:
-        out.append((f"bad.hand.{label}", PRELUDE + HAND + MAIN_HAND % {"ctor": ctor, "ty": ty}, "bad"))
+        # through the plain writer and through the schema-recording writer
+        for entry, etag in (("serialize", ""), ("serialize_with_schema", ".schema")):
+            out.append((f"bad.hand.{label}{etag}", PRELUDE + HAND + MAIN_HAND % {"ctor": ctor, "ty": ty, "entry": entry}, "bad"))
     # sequences of a fake zero-copy type
     fake = "#[derive(Epserde, Clone, Copy, Debug)]\n#[repr(C)]\n#[zero_copy]\npub struct F { pub s: &'static [u8] }\n"
     out.append(("bad.vec-of-fake", PRELUDE + fake + MAIN % {"ctor": "vec![F { s: &[1u8, 2] }]", "ty": "Vec<F>"}, "bad"))
@@ -282,6 +301,11 @@ def main():
             if not ok:
                 sys.stderr.write(f"MACHINERY: positive control {pid} failed: {r['stderr'][-400:]} {r.get('stdout')}\n")
                 sys.exit(2)
+        elif not r["compiled"] and pid.startswith("bad.hand."):
+            # the hand-declared probes bypass the compile-time layer by construction: if one does
+            # not compile, the second layer is not being exercised by it
+            sys.stderr.write(f"MACHINERY: hand-declared probe {pid} does not compile: {r['stderr'][-600:]}\n")
+            sys.exit(2)
         elif not r["compiled"]:
             o = "rejected-at-compile-time:" + "+".join(r["errors"][:3])
             nontrivial += 1
